@@ -277,6 +277,38 @@ def to_scenic(case):
     return f"# TOP: {sname(case['top'])}\n" + "\n".join(lines) + "\n"
 
 
+def runs_sub_under_wrapper(case):
+    """Trigger of the named deviation invimpl: a behaviour with invariants runs a sub-behaviour under
+    do-for / do-until or inside a try/interrupt statement."""
+    def has_do(stmts):
+        for st in stmts:
+            if st[0] in ("do", "dofor", "dountil", "choose", "shuffle"):
+                return True
+            if st[0] == "if" and (has_do(st[2]) or has_do(st[3])):
+                return True
+            if st[0] == "while" and has_do(st[2]):
+                return True
+            if st[0] == "try" and (has_do(st[1]) or any(has_do(h) for _c, h in st[2])):
+                return True
+        return False
+
+    def wrapped(stmts):
+        for st in stmts:
+            if st[0] in ("dofor", "dountil"):
+                return True
+            if st[0] == "try" and (has_do(st[1]) or any(has_do(h) for _c, h in st[2])):
+                return True
+            if st[0] == "if" and (wrapped(st[2]) or wrapped(st[3])):
+                return True
+            if st[0] == "while" and wrapped(st[2]):
+                return True
+            if st[0] == "try" and (wrapped(st[1]) or any(wrapped(h) for _c, h in st[2])):
+                return True
+        return False
+
+    return any(d["inv"] and wrapped(d["body"]) for d in case["defs"])
+
+
 # ------------------------------------------------------------------ running a case on the real code
 class Timeout(Exception):
     pass
